@@ -1,6 +1,7 @@
 """C03 — exporting a database and re-importing it preserves the lexicons (structural agreement)."""
 from __future__ import annotations
 import ast
+from ..pat import Frag
 from ..src import norm, walk_no_nested, AnalysisError
 from ..consts import const, Unknown
 from ..pyutil import parents, binding_sites, get_arg
@@ -283,7 +284,7 @@ def r3_metadata_provenance(ctx, res):
     # find_entries yields (_id, _pos, wordforms, lexid, rowid) with rowid = entries.rowid
     fe = ctx.repo.func('_queries', 'find_entries')
     key = 'find_entries-yield'
-    src = norm(fe.node)
+    src = Frag(fe.node)
     res.inst(key, fe.module.loc(fe.node), 'yield (_id, _pos, wordforms, lexid, rowid)')
     if 'lexid, rowid, _id, _pos = cast(tuple[int, int, str, str], key)' not in src or 'yield (_id, _pos, wordforms, lexid, rowid)' not in src \
             or 'lambda row: row[0:4]' not in src:
@@ -389,7 +390,7 @@ def r5_precheck_first(ctx, res):
     if not body or norm(body[0]) != '_precheck(lexicons)':
         res.find(key, f.module.loc(f.node), 'export() no longer starts with _precheck(lexicons): lexicons with clashing identifiers are '
                                             'written into one file and cannot be re-imported faithfully')
-    src = norm(f.node)
+    src = Frag(f.node)
     key = 'export-writes-through-dump'
     res.inst(key, f.module.loc(f.node), 'lmf.dump(resource, destination)')
     if 'lmf.dump(resource, destination)' not in src or "'lexicons': [_export_lexicon(lex, _version) for lex in lexicons]" not in src:
@@ -397,7 +398,7 @@ def r5_precheck_first(ctx, res):
     pc = ctx.repo.func('_export', '_precheck')
     key = 'precheck-raises'
     res.inst(key, pc.module.loc(pc.node), 'raises wn.Error on clashing identifiers')
-    s2 = norm(pc.node)
+    s2 = Frag(pc.node)
     if not any(isinstance(n, ast.Raise) and 'wn.Error' in norm(n) for n in walk_no_nested(pc.node)) or 'all_ids.intersection(idset)' not in s2:
         res.find(key, pc.module.loc(pc.node), '_precheck no longer refuses exports whose lexicons share identifiers')
 
